@@ -106,7 +106,10 @@ void snapshot_check() {
   if (!g_tp) return; auto s = g_tp->snapshot();
   if ((int)s.thread_num > g_max) sched_fail("snapshot: thread_num %zu exceeds max %d", s.thread_num, g_max);
 }
-void do_cleanup() { g_in_cleanup = true; if (g_tp) g_tp->cleanup(); else if (g_wt) g_wt->cleanup(); }
+void do_cleanup() { g_in_cleanup = true; if (g_tp) g_tp->cleanup(); else if (g_wt) g_wt->cleanup();
+  // "cleanup ... joins every worker": once it has returned no worker may use the pool or the loop any more. (A retiring worker that has
+  // already handed its thread object to the loop may still be returning from its thread function - DESIGN 1.7 - but it must not post again.)
+  g_loop->closed_for_workers = true; }
 
 void final_oracle(bool waited_all) {
   g_loop->drain();
@@ -127,6 +130,7 @@ void final_oracle(bool waited_all) {
   }
   // with a single worker the body start order IS the pick order: same priority => submission order (tasks are numbered in submission order)
   if (g_max == 1) for (int i = 0; i < MAXTASK; i++) for (int j = i + 1; j < MAXTASK; j++) if (R[i].started && R[j].started && R[i].prio == R[j].prio && R[i].start_seq > R[j].start_seq) sched_fail("fifo-order: task %d (same priority, submitted earlier) started after task %d", i, j);
+  if (g_loop->late_worker_posts) sched_fail("worker-used-the-loop-after-cleanup-returned (%d posts)", g_loop->late_worker_posts);
   if (g_max_running > g_max) sched_fail("%d task bodies ran concurrently, max is %d", g_max_running, g_max);
 }
 
@@ -147,7 +151,7 @@ void scenario(int scen) {
       case 2: submit(0, 0, true); submit(1, 0, false); submit(2, -1, true); snapshot_check(); wait_task(0); wait_task(1); wait_task(2); waited = true; loop.drain(); snapshot_check(); break;
       case 3: submit(0, 0, true); wait_task(0); loop.drain(); submit(1, 0, true); wait_task(1); waited = true; break;   // worker retirement, then a new worker
       case 4: submit(0, 1, false); submit(1, 0, false); status(1); cancel(0); break;                      // cancel/status racing with the pick, then cleanup
-      case 5: do_cleanup(); g_in_cleanup = false; loop.drain(); if (!tp.initialize(g_min, g_max)) sched_fail("re-initialize failed"); submit(0, 0, true); wait_task(0); waited = true; break;   // cleanup then re-initialise
+      case 5: do_cleanup(); g_in_cleanup = false; loop.closed_for_workers = false; loop.drain(); if (!tp.initialize(g_min, g_max)) sched_fail("re-initialize failed"); submit(0, 0, true); wait_task(0); waited = true; break;   // cleanup then re-initialise
       case 6: submit(0, 0, false); submit(1, -1, false); submit(2, 0, false); break;
       case 7: submit(0, 0, false); submit(1, 0, false); submit(2, 0, false); submit(3, 0, false); cancel(1); wait_task(0); wait_task(1); wait_task(2); wait_task(3); waited = true; break;   // three same-priority waiters, cancel in the middle                       // queue then cleanup: pending tasks dropped, never run twice
     }
